@@ -373,7 +373,7 @@ class TreeGen:
         if k == 'cns':
             return D('custom', kids(n), cls=U.CNs, meta=meta)
         if k == 'cshadow':
-            return D('custom', kids(n), cls=U.CShadow, meta=meta)
+            return D('custom', kids(n), cls=rng.choice((U.CShadow, U.CShadow2)), meta=meta)
         if k == 'cuser':
             return D('custom', kids(n), cls=U.CUser, meta=meta)
         if k == 'cattr':
@@ -865,7 +865,7 @@ def breaking_edit(desc: D, rng, only=None):  # noqa: C901
             if e == 'ntclass' and node.k == 'nt' and node.cls in (U.Point, U.PointSub, U.PointMeth):
                 node.cls = rng.choice([c for c in (U.Point, U.PointSub, U.PointMeth) if c is not node.cls])
                 return out, e
-            if e == 'meta' and node.k == 'custom' and node.cls in (U.CSeq, U.CList, U.CUser, U.CShadow, U.DCG):
+            if e == 'meta' and node.k == 'custom' and node.cls in (U.CSeq, U.CList, U.CUser, U.CShadow, U.CShadow2, U.DCG):
                 node.meta = ('changed', rng.randrange(1000))
                 return out, e
             if e == 'node2leaf' and node.k != 'partial':
